@@ -23,6 +23,75 @@ var scopeNames = []string{"a", "b", "list-item"}
 
 const obsContent = `"[" counters(a, ".") "|" counters(b, ".") "|" counters(list-item, ".") "|" counter(a) "|" counter(b, lower-roman) "]"`
 
+// ---- what the document says, independently of the code: author declarations + the HTML / CSS Lists
+// user-agent rules for lists (CSS Lists 3 appendix A, HTML rendering 15.3.8):
+//	li { display: list-item }   ol, ul, menu { counter-reset: list-item }
+//	ol[start=N] { counter-reset: list-item N-1 }   li[value=V] { counter-set: list-item V }
+//	head { display: none }
+
+type iPair struct {
+	name string
+	v    int
+}
+
+type iOps struct {
+	reset, set   []iPair
+	incr         []iPair
+	incrDeclared bool
+	listItem     bool
+	declared     bool // some counter property is declared by the author
+}
+
+type iElem struct {
+	tag           string
+	value         *int // <li value>
+	uaReset       bool // the reset comes from the ol / ul / menu rule
+	none          bool
+	ops           iOps
+	before, after *iOps
+	kids          []*iElem
+}
+
+func iPairsX(ps []iPair) sx.X {
+	xs := make([]sx.X, len(ps))
+	for i, p := range ps {
+		xs[i] = sx.L(sx.S(p.name), sx.I(p.v))
+	}
+	return sx.L(xs...)
+}
+
+func (o iOps) x() sx.X {
+	incr := sx.A("auto")
+	if o.incrDeclared {
+		incr = iPairsX(o.incr)
+	}
+	return sx.L(sx.A("ops"), sx.B(o.listItem), iPairsX(o.reset), iPairsX(o.set), incr)
+}
+
+// knownUA switches on the two known deviations of the code's user-agent rules (to name them).
+type knownUA struct{ liValueResets, menuNoReset bool }
+
+func (e *iElem) x(k knownUA) sx.X {
+	ops := e.ops
+	if k.liValueResets && e.value != nil { // counter-reset: list-item V; counter-increment: none
+		ops.reset, ops.set, ops.incr, ops.incrDeclared = []iPair{{"list-item", *e.value}}, nil, []iPair{}, true
+	}
+	if k.menuNoReset && e.tag == "menu" && e.uaReset {
+		ops.reset = nil
+	}
+	ps := func(o *iOps) sx.X {
+		if o == nil || e.none {
+			return sx.L()
+		}
+		return o.x()
+	}
+	kids := make([]sx.X, len(e.kids))
+	for i, c := range e.kids {
+		kids[i] = c.x(k)
+	}
+	return sx.L(sx.A("e"), sx.B(e.none), ops.x(), ps(e.before), ps(e.after), sx.L(kids...))
+}
+
 type docGen struct {
 	r      *rng.R
 	n      int
@@ -30,11 +99,14 @@ type docGen struct {
 	body   strings.Builder
 	css    strings.Builder
 	starts map[string]int // id of the first <li> of a plain <ol start=N>  ->  N
+	revs   map[string]int // id of the k-th <li> of a plain <ol reversed> with n items -> n-k+1
+	top    []*iElem
 }
 
-func (g *docGen) pairs(allowListItem bool) string {
+func (g *docGen) pairs(allowListItem bool, dflt int) (string, []iPair) {
 	n := g.r.Range(1, 2)
 	var parts []string
+	var ps []iPair
 	for i := 0; i < n; i++ {
 		name := rng.Pick(g.r, "a", "a", "b")
 		if allowListItem && g.r.P(1, 6) {
@@ -42,63 +114,101 @@ func (g *docGen) pairs(allowListItem bool) string {
 		}
 		if g.r.P(1, 3) {
 			parts = append(parts, name)
+			ps = append(ps, iPair{name, dflt})
 		} else {
-			parts = append(parts, fmt.Sprintf("%s %d", name, g.r.Range(-3, 9)))
+			v := g.r.Range(-3, 9)
+			parts = append(parts, fmt.Sprintf("%s %d", name, v))
+			ps = append(ps, iPair{name, v})
 		}
 	}
-	return strings.Join(parts, " ")
+	return strings.Join(parts, " "), ps
 }
 
-// counterDecls returns a declaration block with random counter properties ("" = none).
-func (g *docGen) counterDecls(p int) string {
+// counterDecls returns a declaration block with random counter properties ("" = none) and records them.
+func (g *docGen) counterDecls(p int, o *iOps) string {
 	var ds []string
 	if g.r.P(p, 10) {
-		ds = append(ds, "counter-reset: "+g.pairs(true))
+		c, ps := g.pairs(true, 0)
+		ds = append(ds, "counter-reset: "+c)
+		o.reset = ps
 	}
 	if g.r.P(p, 12) {
-		ds = append(ds, "counter-increment: "+g.pairs(true))
+		c, ps := g.pairs(true, 1)
+		ds = append(ds, "counter-increment: "+c)
+		o.incr, o.incrDeclared = ps, true
 	}
 	if g.r.P(p, 20) {
-		ds = append(ds, "counter-set: "+g.pairs(true))
+		c, ps := g.pairs(true, 0)
+		ds = append(ds, "counter-set: "+c)
+		o.set = ps
 	}
 	if g.r.P(1, 60) {
 		ds = append(ds, "counter-increment: none")
+		o.incr, o.incrDeclared = []iPair{}, true
+	}
+	if len(ds) > 0 {
+		o.declared = true
 	}
 	g.decls += len(ds)
 	return strings.Join(ds, "; ")
 }
 
-func (g *docGen) element(depth int, parentTag string) {
+func isListTag(tag string) bool { return tag == "ol" || tag == "ul" || tag == "menu" }
+
+func (g *docGen) element(depth int, parentTag string) *iElem {
 	tag := rng.Pick(g.r, "div", "div", "p", "span", "ol", "ul", "section")
-	if parentTag == "ol" || parentTag == "ul" {
+	if isListTag(parentTag) {
 		tag = rng.Pick(g.r, "li", "li", "li", "li", "div")
+	}
+	if parentTag == "li" { // mixed nested lists
+		tag = rng.Pick(g.r, "ol", "ul", "ul", "menu", "div", "span", "p")
 	}
 	if parentTag == "p" || parentTag == "span" || parentTag == "em" || parentTag == "q" {
 		tag = rng.Pick(g.r, "span", "span", "em") // phrasing content only (the HTML parser would restructure anything else)
 	}
 	g.n++
+	e := &iElem{tag: tag}
 	id := fmt.Sprintf("e%d", g.n)
 	attrs := fmt.Sprintf(` id="%s" class="o"`, id)
 	plain := true
+	var ds []string
+	if d := g.counterDecls(3, &e.ops); d != "" {
+		ds = append(ds, d)
+		plain = false
+	}
 	start := 0
-	if tag == "ol" && g.r.P(1, 3) {
+	if tag == "ol" && !e.ops.declared && g.r.P(1, 3) {
 		start = g.r.Range(-3, 12)
 		if start == 0 {
 			start = 5
 		}
 		attrs += fmt.Sprintf(` start="%d"`, start)
 	}
-	var ds []string
-	if d := g.counterDecls(3); d != "" {
-		ds = append(ds, d)
+	if tag == "li" && !e.ops.declared && g.r.P(1, 6) {
+		v := g.r.Range(-2, 20)
+		attrs += fmt.Sprintf(` value="%d"`, v)
+		e.ops.set = []iPair{{"list-item", v}}
+		e.value = &v
 		plain = false
+	}
+	if tag == "li" {
+		e.ops.listItem = true
 	}
 	if g.r.P(1, 12) {
 		ds = append(ds, "display: none")
+		e.none = true
 		plain = false
-	}
-	if tag != "li" && tag != "ol" && tag != "ul" && g.r.P(1, 10) {
+	} else if tag != "li" && !isListTag(tag) && g.r.P(1, 10) {
 		ds = append(ds, "display: list-item")
+		e.ops.listItem = true
+	}
+	if isListTag(tag) && e.ops.reset == nil {
+		e.uaReset = true
+		if start != 0 {
+			e.ops.reset = []iPair{{"list-item", start - 1}}
+		} else {
+			e.ops.reset = []iPair{{"list-item", 0}}
+		}
 	}
 	if g.r.P(1, 4) {
 		ds = append(ds, "list-style-type: "+rng.Pick(g.r, "decimal", "lower-roman", "upper-alpha", "disc", "decimal-leading-zero", "cjk-decimal", `"*"`, "symbols(cyclic x y)", "Kx", "Kx", "kx"))
@@ -110,20 +220,28 @@ func (g *docGen) element(depth int, parentTag string) {
 		fmt.Fprintf(&g.css, "#%s { %s }\n", id, strings.Join(ds, "; "))
 	}
 	for _, ps := range []string{"before", "after"} {
+		o := &iOps{}
 		if g.r.P(1, 6) {
 			fmt.Fprintf(&g.css, "#%s::%s { content: none }\n", id, ps)
+			o = nil
 		} else if g.r.P(1, 8) { // a list-item pseudo-element: marker, implicit increment, own counter properties
-			d := g.counterDecls(4)
+			d := g.counterDecls(4, o)
 			if d != "" {
 				d = "; " + d
 			}
+			o.listItem = true
 			fmt.Fprintf(&g.css, "#%s::%s { display: list-item%s }\n", id, ps, d)
 			fmt.Fprintf(&g.css, "#%s { list-style-type: %s }\n", id, rng.Pick(g.r, "decimal", "upper-roman", "lower-alpha", "decimal-leading-zero"))
 			g.decls++
 			plain = false
-		} else if d := g.counterDecls(1); d != "" {
+		} else if d := g.counterDecls(1, o); d != "" {
 			fmt.Fprintf(&g.css, "#%s::%s { %s }\n", id, ps, d)
 			plain = false
+		}
+		if ps == "before" {
+			e.before = o
+		} else {
+			e.after = o
 		}
 	}
 	fmt.Fprintf(&g.body, "<%s%s>", tag, attrs)
@@ -133,18 +251,18 @@ func (g *docGen) element(depth int, parentTag string) {
 	kids := 0
 	if depth < 4 && g.n < 28 {
 		kids = g.r.Range(0, 4)
-		if tag == "ol" || tag == "ul" {
+		if isListTag(tag) {
 			kids = g.r.Range(1, 4)
 		}
 	}
 	for i := 0; i < kids; i++ {
 		before := g.n
 		cssLen := g.css.Len()
-		g.element(depth+1, tag)
+		e.kids = append(e.kids, g.element(depth+1, tag))
 		if i == 0 && start != 0 && plain && tag == "ol" {
 			// first child of a plain <ol start>: remember it if it is itself a plain <li>
 			first := fmt.Sprintf("e%d", before+1)
-			if strings.Contains(g.body.String(), fmt.Sprintf(`<li id="%s"`, first)) && !strings.Contains(g.css.String()[cssLen:], "#"+first+" ") && !strings.Contains(g.css.String()[cssLen:], "#"+first+":") {
+			if strings.Contains(g.body.String(), fmt.Sprintf(`<li id="%s" class="o">`, first)) && !strings.Contains(g.css.String()[cssLen:], "#"+first+" ") && !strings.Contains(g.css.String()[cssLen:], "#"+first+":") {
 				g.starts[first] = start
 			}
 		}
@@ -153,26 +271,57 @@ func (g *docGen) element(depth int, parentTag string) {
 		}
 	}
 	fmt.Fprintf(&g.body, "</%s>", tag)
+	return e
+}
+
+// plainList appends <tag attr><li>…</li>…</tag> without any author declaration and returns the ids of the items.
+func (g *docGen) plainList(tag, attr string, items int, reset int) []string {
+	l := &iElem{tag: tag, uaReset: true, before: &iOps{}, after: &iOps{}}
+	l.ops.reset = []iPair{{"list-item", reset}}
+	g.n++
+	fmt.Fprintf(&g.body, `<%s id="e%d" class="o"%s>`, tag, g.n, attr)
+	var ids []string
+	for i := 0; i < items; i++ {
+		g.n++
+		ids = append(ids, fmt.Sprintf("e%d", g.n))
+		fmt.Fprintf(&g.body, `<li id="e%d" class="o">x</li>`, g.n)
+		l.kids = append(l.kids, &iElem{tag: "li", ops: iOps{listItem: true}, before: &iOps{}, after: &iOps{}})
+	}
+	fmt.Fprintf(&g.body, "</%s>", tag)
+	g.top = append(g.top, l)
+	return ids
 }
 
 func genDoc(r *rng.R) (string, *docGen) {
-	g := &docGen{r: r, starts: map[string]int{}}
+	g := &docGen{r: r, starts: map[string]int{}, revs: map[string]int{}}
 	n := r.Range(1, 4)
 	for i := 0; i < n; i++ {
-		g.element(0, "body")
+		g.top = append(g.top, g.element(0, "body"))
 	}
 	if r.P(1, 2) { // a plain <ol start=N>: its first item must show N
 		start := r.Range(-4, 40)
 		if start == 0 {
 			start = 7
 		}
-		g.n += 3
-		fmt.Fprintf(&g.body, `<ol id="e%d" class="o" start="%d"><li id="e%d" class="o">x</li><li id="e%d" class="o">y</li></ol>`, g.n-2, start, g.n-1, g.n)
-		g.starts[fmt.Sprintf("e%d", g.n-1)] = start
+		ids := g.plainList("ol", fmt.Sprintf(` start="%d"`, start), 2, start-1)
+		g.starts[ids[0]] = start
+	}
+	if r.P(1, 6) { // <ol reversed>: n, n-1, ..., 1 (HTML 4.4.5)
+		k := r.Range(2, 4)
+		for i, id := range g.plainList("ol", " reversed", k, 0) {
+			g.revs[id] = k - i
+		}
 	}
 	// an author style with a mixed-case name (list-style-type: Kx uses it, kx is undefined -> decimal)
 	src := "<html><head><style>\n@counter-style Kx { system: cyclic; symbols: \"<\" \">\"; suffix: \"~\" }\n.o::before, .o::after { content: " + obsContent + " }\n" + g.css.String() + "</style></head><body>" + g.body.String() + "</body></html>"
 	return src, g
+}
+
+// intentX: the document as the scope model takes it, from the rules above (not from the code's cascade).
+func (g *docGen) intentX(k knownUA) sx.X {
+	body := &iElem{kids: g.top}
+	head := &iElem{none: true}
+	return (&iElem{kids: []*iElem{head, body}}).x(k)
 }
 
 func pairsX(v pr.IntStrings) sx.X {
@@ -307,7 +456,7 @@ func runScopes(m *mp.Model, r *rng.R, n int, out *res.Result) error {
 		seed := cr.Seed()
 		src, g := genDoc(cr)
 		out.Hit(fmt.Sprintf("doc:elements:%d", (g.n+4)/5*5))
-		texts, nobs, err := checkDoc(m, src, g.starts, g.decls >= 2, out, seed)
+		texts, nobs, err := checkDoc(m, src, g, g.decls >= 2, out, seed)
 		if err != nil {
 			return err
 		}
@@ -320,7 +469,7 @@ func runScopes(m *mp.Model, r *rng.R, n int, out *res.Result) error {
 
 // checkDoc builds the box tree of one document with the real code and compares every counter text
 // with the scope model (corr) and the CSS Lists 3 algorithm (judge).  Returns the texts found.
-func checkDoc(m *mp.Model, src string, starts map[string]int, nontrivial bool, out *res.Result, seed uint64) (map[[2]string]string, int, error) {
+func checkDoc(m *mp.Model, src string, g *docGen, nontrivial bool, out *res.Result, seed uint64) (map[[2]string]string, int, error) {
 	{
 		h, err := tree.NewHTML(utils.InputString(src), "", nil, "")
 		if err != nil {
@@ -398,6 +547,10 @@ func checkDoc(m *mp.Model, src string, starts map[string]int, nontrivial bool, o
 			}
 		}
 		// ol start=N: the first list item shows N
+		var starts map[string]int
+		if g != nil {
+			starts = g.starts
+		}
 		for id, n := range starts {
 			for _, e := range exp {
 				if e.id == id && e.kind == "marker" {
@@ -409,6 +562,84 @@ func checkDoc(m *mp.Model, src string, starts map[string]int, nontrivial bool, o
 				}
 			}
 		}
+		if g != nil {
+			if err := judgeUA(m, src, g, cs, exp, texts, out, seed); err != nil {
+				return nil, 0, err
+			}
+		}
 		return texts, len(exp), nil
 	}
+}
+
+// matches: do the texts of the real box tree equal what the observation list predicts?
+func matches(cs counters.CounterStyle, exp []expect, os []obs, texts map[[2]string]string) (bool, string) {
+	if len(os) != len(exp) {
+		return false, fmt.Sprintf("%d observation points in the box tree, %d expected", len(exp), len(os))
+	}
+	for j, e := range exp {
+		if os[j].kind != e.kind {
+			return false, "observation order"
+		}
+		want := expectedText(cs, e, os[j])
+		if e.kind == "marker" {
+			var ws []string
+			for k2, e2 := range exp {
+				if e2.id == e.id && e2.kind == "marker" {
+					ws = append(ws, expectedText(cs, e2, os[k2]))
+				}
+			}
+			want = strings.Join(ws, "\x00")
+		}
+		if got := texts[[2]string{e.id, e.kind}]; got != want {
+			return false, fmt.Sprintf("#%s::%s = %q, expected %q", e.id, e.kind, got, want)
+		}
+	}
+	return true, ""
+}
+
+// judgeUA: the counter texts against the specification evaluated on the document AS WRITTEN — author
+// declarations plus the list rules of CSS Lists 3 / HTML (the harness's own copy, see iElem) — so that
+// the user-agent stylesheet and the presentational hints of the code are judged too.
+func judgeUA(m *mp.Model, src string, g *docGen, cs counters.CounterStyle, exp []expect, texts map[[2]string]string, out *res.Result, seed uint64) error {
+	ask := func(k knownUA) ([]obs, error) {
+		ans, err := m.Ask(sx.L(sx.A("scope"), sx.L(sx.A("names"), sx.S("a"), sx.S("b"), sx.S("list-item")), g.intentX(k)))
+		if err != nil {
+			return nil, err
+		}
+		if ans.K != sx.List || len(ans.Xs) != 4 {
+			return nil, fmt.Errorf("scope: model answered %s", ans.String())
+		}
+		os, _ := parseObs(ans.Xs[2])
+		return os, nil
+	}
+	os, err := ask(knownUA{})
+	if err != nil {
+		return err
+	}
+	out.Hit("scope:ua-judged")
+	if ok, why := matches(cs, exp, os, texts); !ok {
+		key := "values"
+		for _, k := range []knownUA{{liValueResets: true}, {menuNoReset: true}, {true, true}} {
+			os2, err := ask(k)
+			if err != nil {
+				return err
+			}
+			if ok2, _ := matches(cs, exp, os2, texts); ok2 {
+				key = fmt.Sprintf("ua-rules:li-value-resets=%v,menu-no-reset=%v", k.liValueResets, k.menuNoReset)
+				break
+			}
+		}
+		add(out, res.Finding{Kind: "judge", Op: "judge:scope:ua-rules", Input: src, Impl: why, Reason: "CSS Lists 3 on the document as written (author declarations + ol, ul, menu { counter-reset: list-item }, ol[start], li[value], li { display: list-item })", Key: key, Seed: seed})
+	}
+	for id, n := range g.revs {
+		for _, e := range exp {
+			if e.id == id && e.kind == "marker" {
+				want := cs.RenderMarker(e.style.GetListStyleType(), n)
+				if got := texts[[2]string{id, "marker"}]; got != want {
+					add(out, res.Finding{Kind: "judge", Op: "judge:scope:ol-reversed", Input: src, Impl: got, Model: want, Reason: "<ol reversed> counts down to 1", Key: "ol-reversed", Seed: seed})
+				}
+			}
+		}
+	}
+	return nil
 }
